@@ -125,7 +125,7 @@ def _self_paths(node, ty):
     elif isinstance(node, dict):
         if node.get("k") in ("path", "tstruct", "struct", "call") or "segs" in node:
             segs = node.get("segs")
-            if isinstance(segs, list) and len(segs) >= 2 and segs[0] == "Self":
+            if isinstance(segs, list) and len(segs) >= 1 and segs[0] == "Self":
                 segs[0] = ty
                 n += 1
         for v in node.values():
@@ -134,9 +134,48 @@ def _self_paths(node, ty):
     return n
 
 
+def _let_else(node):
+    """N3  `let PAT = E else { DIVERGE }; REST` is `match E { PAT => { REST }, _ => DIVERGE }` as the value of the block: the
+    else-block never falls through, and the bindings of PAT are in scope exactly in REST."""
+    n = 0
+    if isinstance(node, list):
+        for x in node:
+            n += _let_else(x)
+    elif isinstance(node, dict):
+        if node.get("k") == "block" and isinstance(node.get("stmts"), list):
+            st = node["stmts"]
+            for i, s_ in enumerate(st):
+                if isinstance(s_, dict) and s_.get("k") == "let" and s_.get("else") is not None and s_.get("init") is not None:
+                    l_ = s_.get("l")
+                    rest = {"k": "block", "l": l_, "stmts": st[i + 1 :]}
+                    mt = {
+                        "k": "match",
+                        "l": l_,
+                        "scrut": s_["init"],
+                        "arms": [
+                            {"l": l_, "pat": s_["pat"], "guard": None, "body": rest, "attrs": []},
+                            {"l": l_, "pat": {"k": "wild", "l": l_}, "guard": None, "body": s_["else"], "attrs": []},
+                        ],
+                    }
+                    node["stmts"] = st[:i] + [{"k": "expr", "l": l_, "e": mt, "semi": False}]
+                    n += 1
+                    break
+        for v in node.values():
+            if isinstance(v, (dict, list)):
+                n += _let_else(v)
+    return n
+
+
 def apply(facts):
     facts.normalised = []
     import re as _re
+
+    for key, fn in facts.fns.items():
+        if fn.body is None:
+            continue
+        k_ = _let_else(fn.node["body"])
+        if k_:
+            facts.normalised.append("%s: %d `let … else` read as a two-arm match" % (key, k_))
 
     for key, fn in facts.fns.items():
         if fn.impl is None or fn.body is None:
